@@ -498,6 +498,12 @@ def find_group_cohorts(
 
     chunks_cohorts = tlz.groupby(invert, label_chunks.keys())
 
+    if len(label_chunks) == 0 and bitmask.shape[CHUNK_AXIS] > 1:
+        # None of the labels occurs (all missing or not requested): "every group is contained in one block"
+        # holds only vacuously, and blockwise over several blocks would return one result per block.
+        logger.debug("find_group_cohorts: no label present. 'map-reduce' is preferred.")
+        return "map-reduce", {}
+
     # 2. Every group is contained to one block, use blockwise here.
     if bitmask.shape[CHUNK_AXIS] == 1 or (chunks_per_label == 1).all():
         logger.debug("find_group_cohorts: blockwise is preferred.")
